@@ -40,66 +40,21 @@ import (
 
 // KnownIssues: key -> true = mask the defect (the shape is avoided / the observation is only
 // counted), false = let the test fail on it.
+// Fixed and removed (reproducers kept as probes, see c19MrtProbes): mrt-rib-afi-safi-inverted,
+// mrt-rib-generic-family-lost, mrt-mpreach-without-nexthop, mrt-bgp4mp-addpath-ignored,
+// mrt-bgp4mp-as2-truncated, mrt-body-reads-past-header-len, mrt-split-cap-not-len,
+// mrt-split-length-overflow, mrt-newrib-empty-entries-panics.
 var KnownIssues = map[string]bool{
-	// Rib.Serialize writes the 3-octet AFI/SAFI prefix of RIB_GENERIC for exactly the wrong
-	// families: `case RF_FS_IPv4_UC, RF_IPv4_MC, RF_IPv6_UC, RF_IPv6_MC:` emits AFI/SAFI and
-	// `default:` emits nothing.  parseRib reads AFI/SAFI only for the GENERIC sub-types.
-	// Reproducer: NewRib(1, RF_IPv6_UC, 2001:db8::/32, [entry]) under RIB_IPV6_UNICAST serialises
-	// as seq | 00 02 01 | 20 2001 0db8 | ... and parses back as prefix ::/0 with garbage after
-	// it (or fails); NewRib(1, RF_IPv4_VPN, ...) under RIB_GENERIC serialises without AFI/SAFI and
-	// fails to parse.  Only IPv4 unicast and (under GENERIC) IPv4 FlowSpec round-trip.
-	// Functions: (*Rib).Serialize vs parseRib.
-	"mrt-rib-afi-safi-inverted": true,
-	// parseRib stores the AFI/SAFI it reads from a RIB_GENERIC(_ADDPATH) body in a local variable
-	// only: the returned Rib has Family 0 (JSON "Family":0), and because Rib.Serialize is driven
-	// by Rib.Family the parsed record re-serialises to different bytes.
-	// Reproducer: NewRib(0, RF_FS_IPv4_UC, flowspec NLRI, [entry]) under RIB_GENERIC -> ParseBody ->
-	// body.(*Rib).Family == 0.  Masked: the harness copies the family into the parsed value.
-	"mrt-rib-generic-family-lost": true,
-	// The MRT form of MP_REACH_NLRI (RFC 6396 4.3.4: next hop length + next hop only) of a family
-	// without next hop (FlowSpec, opaque) is one octet long; PathAttributeMpReachNLRI.DecodeFromBytes
-	// applies its "p.Length < 3" check before looking at the MRT option and rejects it: a RIB entry
-	// of a FlowSpec route (as dumped by the daemon) serialises but does not parse back
-	// ("mpreach header length is short").  Reproducer: RIB_GENERIC, family ipv4-flowspec, entry
-	// attributes [ORIGIN, AS_PATH, MP_REACH_NLRI(ipv4-flowspec, no next hop)].
-	"mrt-mpreach-without-nexthop": true,
 	// ParseBody has no case for the extended-timestamp types although NewMRTHeader /
 	// MRTHeader.Serialize / ParseHeader support them: a BGP4MP_ET record built with NewMRTMessage
 	// serialises and its header parses, but ParseBody answers "unsupported type: 17".  SplitMrt
 	// cannot frame such a record either: it hands only 12 octets to ParseHeader, which wants 16 for
 	// an _ET type, and returns that error for the whole stream.
 	// Reproducer: NewMRTMessage(t, BGP4MP_ET, MESSAGE_AS4, NewBGP4MPMessage(...)).
+	// (open: RFC 6396 counts the microsecond field in the header Length, MRTMessage.Serialize does
+	// not; making _ET records readable means deciding what MRTHeader.Len stands for in ParseHeader,
+	// ParseBody, SplitMrt, Serialize and the readers that fetch 12 + Len octets)
 	"mrt-et-not-parsed": true,
-	// BGP4MP MESSAGE*_ADDPATH sub-types (RFC 8050): parseBGP4MPMessage ignores isAddPath and calls
-	// bgp.ParseBGPMessage without ADD-PATH options, and BGP4MPMessage.Serialize serialises the
-	// BGP message without options.  A constructed ADD-PATH record loses its path identifiers
-	// (NLRI 10.0.0.0/24 id 5 comes back with id 0) and a record carrying an ADD-PATH encoded
-	// payload (what the daemon writes: BGPMessagePayload) is decoded as if it had no path
-	// identifiers: wrong prefixes or a parse error.
-	// Reproducer: NewBGP4MPMessageAddPath(..., UPDATE{NLRI 10.0.0.0/24 id 5}) -> parse -> id 0.
-	"mrt-bgp4mp-addpath-ignored": true,
-	// BGP4MPHeader.serialize silently truncates PeerAS / LocalAS to 16 bits for the 2-octet-AS
-	// sub-types (Peer.Serialize refuses the same situation with an error).
-	// Reproducer: NewBGP4MPStateChange(70000, 65000, 0, ip, ip, false, 1, 2) parses back with
-	// PeerAS 4464.
-	"mrt-bgp4mp-as2-truncated": true,
-	// ParseBody checks len(data) >= h.Len but does not cut data to h.Len: counts inside the
-	// body (peer count, entry count, attribute length, view name length) are satisfied from
-	// whatever follows the record in the caller's buffer.
-	// Reproducer: PEER_INDEX_TABLE body 0a000001 0000 0001 (one peer announced, none present,
-	// h.Len=8) followed by 11 more octets parses successfully with a peer built from those octets.
-	"mrt-body-reads-past-header-len": true,
-	// SplitMrt tests cap(data) instead of len(data) before slicing data[:12]: with fewer than 12
-	// octets available it parses a header out of stale buffer contents behind the data
-	// (bufio.Scanner hands in a window of a larger buffer).
-	// Reproducer: data = buf[:4] of a 64-octet buffer -> header read from buf[0:12].
-	"mrt-split-cap-not-len": true,
-	// SplitMrt computes int(hdr.Len + 12) in uint32: Length >= 0xfffffff4 wraps to 0..11 and the
-	// splitter returns a token shorter than a header; for Length == 0xfffffff4 it returns
-	// (0, empty non-nil token, nil), which bufio.Scanner reports as a token forever (or panics with
-	// "too many empty tokens" at EOF).
-	// Reproducer: 00000000 000d 0002 fffffff4.
-	"mrt-split-length-overflow": true,
 }
 
 type c19MrtCase struct {
@@ -281,14 +236,8 @@ func c19MrtAS(s *verifgen.Src, as4 bool, st *verifkit.Stats, issue *string) uint
 		return verifgen.ASN(s)
 	}
 	if s.Chance(1, 8) {
-		if KnownIssues["mrt-bgp4mp-as2-truncated"] {
-			if st != nil {
-				st.Exclude("mrt-bgp4mp-as2-truncated")
-			}
-		} else {
-			*issue = "mrt-bgp4mp-as2-truncated"
-			return 65536 + uint32(s.Intn(100000))
-		}
+		// does not fit the 2-octet field: written as AS_TRANS (see c19MrtAS2OnWire)
+		return 65536 + uint32(s.Intn(100000))
 	}
 	return uint32(verifgen.Pick(s, []int{65000, 1, 65535, 23456, 0, 64512}))
 }
@@ -345,14 +294,10 @@ func c19MrtRibEntries(s *verifgen.Src, f bgp.Family, prefix bgp.NLRI, addPath bo
 		if withMP && s.Chance(5, 6) {
 			// RFC 6396 4.3.4: MP_REACH_NLRI carries only the next hop; AFI/SAFI/NLRI are implied by the RIB header
 			nhs := verifgen.MPNextHops(s, f)
-			if len(nhs) == 0 && KnownIssues["mrt-mpreach-without-nexthop"] {
-				if st != nil {
-					st.Exclude("mrt-mpreach-without-nexthop")
-				}
-			} else if mp, err := bgp.NewPathAttributeMpReachNLRI(f, []bgp.PathNLRI{{NLRI: prefix, ID: id}}, nhs...); err == nil {
+			if mp, err := bgp.NewPathAttributeMpReachNLRI(f, []bgp.PathNLRI{{NLRI: prefix, ID: id}}, nhs...); err == nil {
 				attrs = append(attrs, mp)
-				if len(nhs) == 0 && issue != nil && *issue == "" {
-					*issue = "mrt-mpreach-without-nexthop"
+				if len(nhs) == 0 && st != nil {
+					st.Label("rib-entry-mpreach-without-nexthop")
 				}
 			}
 		}
@@ -397,6 +342,10 @@ func c19MrtBuild(s *verifgen.Src, st *verifkit.Stats) c19MrtBuilt {
 		b.rich = n >= 2
 	case 1, 2, 3: // RIB
 		addPath := s.Bool()
+		empty := s.Chance(1, 12) // a record without entries (NewRib cannot tell that it is an ADD-PATH one)
+		if empty {
+			addPath = false
+		}
 		var f bgp.Family
 		var st2 MRTSubTypeTableDumpv2
 		switch s.Intn(6) {
@@ -419,25 +368,17 @@ func c19MrtBuild(s *verifgen.Src, st *verifkit.Stats) c19MrtBuilt {
 				f = bgp.RF_IPv4_VPN
 			}
 		}
-		if f != bgp.RF_IPv4_UC && f != bgp.RF_FS_IPv4_UC {
-			if KnownIssues["mrt-rib-afi-safi-inverted"] {
-				if st != nil {
-					st.Exclude("mrt-rib-afi-safi-inverted")
-				}
-				if st2 == RIB_GENERIC {
-					f = bgp.RF_FS_IPv4_UC
-				} else {
-					f, st2 = bgp.RF_IPv4_UC, RIB_IPV4_UNICAST
-				}
-			} else {
-				b.issue = "mrt-rib-afi-safi-inverted"
-			}
-		}
 		if addPath {
 			st2 += 6
 		}
 		prefix := verifgen.NLRI(s, f)
 		entries := c19MrtRibEntries(s, f, prefix, addPath, st, &b.issue)
+		if empty {
+			entries = nil
+			if st != nil {
+				st.Label("rib-without-entries")
+			}
+		}
 		typ, sub, body = TABLE_DUMPv2, st2, NewRib(s.U32(), f, prefix, entries)
 		b.rich = len(entries) >= 2
 		if st != nil {
@@ -483,16 +424,12 @@ func c19MrtBuild(s *verifgen.Src, st *verifkit.Stats) c19MrtBuilt {
 		// ADD-PATH sub-types announce a BGP message whose NLRI carry path identifiers (RFC 8050)
 		var opt *bgp.MarshallingOption
 		if addPath && len(fams) > 0 {
-			if KnownIssues["mrt-bgp4mp-addpath-ignored"] {
-				if st != nil {
-					st.Exclude("mrt-bgp4mp-addpath-ignored")
-				}
-			} else {
-				opt = &bgp.MarshallingOption{AddPath: map[bgp.Family]bgp.BGPAddPathMode{}}
-				for _, f := range fams {
-					opt.AddPath[f] = bgp.BGP_ADD_PATH_BOTH
-				}
-				b.issue = "mrt-bgp4mp-addpath-ignored"
+			opt = &bgp.MarshallingOption{AddPath: map[bgp.Family]bgp.BGPAddPathMode{}}
+			for _, f := range fams {
+				opt.AddPath[f] = bgp.BGP_ADD_PATH_BOTH
+			}
+			if st != nil {
+				st.Label("bgp4mp-addpath-encoded")
 			}
 		}
 		verifgen.NormalisePathIDs(msg, opt)
@@ -582,6 +519,27 @@ func c19MrtBodyString(b Body) string {
 	return fmt.Sprintf("%T", b)
 }
 
+// c19MrtAS2OnWire: the 2-octet-AS sub-types carry AS_TRANS for an AS number that does not fit
+// (RFC 6793); after serialisation the constructed value is rewritten to what the wire says.
+func c19MrtAS2OnWire(body Body) {
+	var h *BGP4MPHeader
+	switch x := body.(type) {
+	case *BGP4MPStateChange:
+		h = x.BGP4MPHeader
+	case *BGP4MPMessage:
+		h = x.BGP4MPHeader
+	}
+	if h == nil || h.isAS4 {
+		return
+	}
+	if h.PeerAS > 65535 {
+		h.PeerAS = bgp.AS_TRANS
+	}
+	if h.LocalAS > 65535 {
+		h.LocalAS = bgp.AS_TRANS
+	}
+}
+
 func c19MrtRoundTripCheck(b c19MrtBuilt, st *verifkit.Stats) *verifkit.Failure {
 	known := func(f *verifkit.Failure) *verifkit.Failure {
 		// a shape generated only while its issue is unmasked keeps the issue's name in the signature
@@ -605,6 +563,7 @@ func c19MrtRoundTripCheck(b c19MrtBuilt, st *verifkit.Stats) *verifkit.Failure {
 		}
 		return known(verifkit.Failf("serialize", "%s does not serialise: %v", b.name, err))
 	}
+	c19MrtAS2OnWire(b.msg.Body)
 	keep := append([]byte{}, wire...)
 	hl := c19MrtHdrLen(b.msg.Header.Type)
 	if len(wire) < hl || int(b.msg.Header.Len) != len(wire)-hl {
@@ -634,10 +593,6 @@ func c19MrtRoundTripCheck(b c19MrtBuilt, st *verifkit.Stats) *verifkit.Failure {
 	}
 	if fmt.Sprintf("%T", p.Body) != fmt.Sprintf("%T", b.msg.Body) {
 		return known(verifkit.Failf("not-equal", "%s parses back as %T", b.name, p.Body))
-	}
-	if pr, ok := p.Body.(*Rib); ok && pr.Family == 0 && b.msg.Body.(*Rib).Family != 0 && KnownIssues["mrt-rib-generic-family-lost"] {
-		st.Exclude("mrt-rib-generic-family-lost")
-		pr.Family = b.msg.Body.(*Rib).Family
 	}
 	if b.payload != nil {
 		pm := p.Body.(*BGP4MPMessage)
@@ -775,12 +730,7 @@ func c19MrtCheckRecord(in []byte, st *verifkit.Stats) *verifkit.Failure {
 		return f
 	}
 	if a, b := c19MrtBodyOutcome(ma, ea), c19MrtBodyOutcome(mb, eb); a != b {
-		if KnownIssues["mrt-body-reads-past-header-len"] {
-			st.Label("known:mrt-body-reads-past-header-len")
-			st.Exclude("mrt-body-reads-past-header-len")
-		} else {
-			return verifkit.Failf("depends-on-trailing-bytes", "%s body %x (header Length %d) decodes differently depending on the bytes that follow it:\n %s\n %s", name, []byte(declared), h.Len, a, b)
-		}
+		return verifkit.Failf("depends-on-trailing-bytes", "%s body %x (header Length %d) decodes differently depending on the bytes that follow it:\n %s\n %s", name, []byte(declared), h.Len, a, b)
 	}
 	_ = m
 	return nil
@@ -811,11 +761,7 @@ func c19MrtCheckSplit(in []byte, st *verifkit.Stats) *verifkit.Failure {
 		if err == nil && tok != nil {
 			st.Label("split-token")
 			if len(tok) < MRT_COMMON_HEADER_LEN || adv != len(tok) {
-				if KnownIssues["mrt-split-length-overflow"] {
-					st.Exclude("mrt-split-length-overflow")
-				} else {
-					return verifkit.Failf("split-short-token", "SplitMrt(%x) returns advance %d and a token of %d octets (shorter than a header)", in, adv, len(tok))
-				}
+				return verifkit.Failf("split-short-token", "SplitMrt(%x) returns advance %d and a token of %d octets (shorter than a header)", in, adv, len(tok))
 			}
 		} else if err != nil {
 			st.Label("split-error")
@@ -830,11 +776,7 @@ func c19MrtCheckSplit(in []byte, st *verifkit.Stats) *verifkit.Failure {
 			return f
 		}
 		if adv != adv2 || len(tok) != len(tok2) || (tok == nil) != (tok2 == nil) || (err == nil) != (err2 == nil) {
-			if len(in) < MRT_COMMON_HEADER_LEN && KnownIssues["mrt-split-cap-not-len"] {
-				st.Exclude("mrt-split-cap-not-len")
-			} else {
-				return verifkit.Failf("reads-beyond-len", "SplitMrt on %d octets %x depends on the spare capacity behind the slice: (%d, %d octets, %v) vs (%d, %d octets, %v)", len(in), in, adv, len(tok), err, adv2, len(tok2), err2)
-			}
+			return verifkit.Failf("reads-beyond-len", "SplitMrt on %d octets %x depends on the spare capacity behind the slice: (%d, %d octets, %v) vs (%d, %d octets, %v)", len(in), in, adv, len(tok), err, adv2, len(tok2), err2)
 		}
 	}
 	// a Scanner over the input must terminate
@@ -862,21 +804,7 @@ func c19MrtCheckSplit(in []byte, st *verifkit.Stats) *verifkit.Failure {
 		}
 		st.LabelN("scanner-tokens", n)
 	}()
-	if fail != nil && (fail.Sig == "scanner-no-progress" || fail.Sig == "scanner-panic") && KnownIssues["mrt-split-length-overflow"] && c19MrtHasWrapLen(in) {
-		st.Exclude("mrt-split-length-overflow")
-		return nil
-	}
 	return fail
-}
-
-// c19MrtHasWrapLen: some record header in the stream (at any offset) declares a Length that wraps in uint32.
-func c19MrtHasWrapLen(in []byte) bool {
-	for i := 0; i+12 <= len(in); i++ {
-		if binary.BigEndian.Uint32(in[i+8:i+12]) >= 0xfffffff4 {
-			return true
-		}
-	}
-	return false
 }
 
 func c19MrtFix(b []byte) {
@@ -1047,10 +975,6 @@ func c19MrtHandRoundTrip(s *verifgen.Src, st *verifkit.Stats) *verifkit.Failure 
 	if !ok {
 		return verifkit.Failf("hand-not-equal", "%s parses as %T", name, p.Body)
 	}
-	if pr.Family == 0 && KnownIssues["mrt-rib-generic-family-lost"] {
-		st.Exclude("mrt-rib-generic-family-lost")
-		pr.Family = rib.Family
-	}
 	if j1, j2 := c19MrtJSON(rib), c19MrtJSON(pr); j1 != j2 {
 		return verifkit.Failf("hand-not-equal", "an RFC 6396 %s record decodes to a different RIB:\n encoded %s\n decoded %s\n wire %x", name, j1, j2, wire)
 	}
@@ -1062,6 +986,239 @@ func c19MrtHandRoundTrip(s *verifgen.Src, st *verifkit.Stats) *verifkit.Failure 
 		st.Nontrivial()
 	}
 	return nil
+}
+
+// ---------------------------------------------------------------------------
+// probes: deterministic reproducers, one per finding (fixed or open); Sig = the key
+// ---------------------------------------------------------------------------
+
+func c19MrtProbeAttrs() []bgp.PathAttributeInterface {
+	return []bgp.PathAttributeInterface{
+		bgp.NewPathAttributeOrigin(0),
+		bgp.NewPathAttributeAsPath([]bgp.AsPathParamInterface{bgp.NewAs4PathParam(2, []uint32{65001, 65002})}),
+	}
+}
+
+// c19MrtProbeReparse serialises a record and parses it back (header and body).
+func c19MrtProbeReparse(key string, typ MRTType, sub MRTSubTyper, body Body) (*MRTMessage, []byte, *verifkit.Failure) {
+	m, err := NewMRTMessage(time.Unix(1700000000, 0), typ, sub, body)
+	if err != nil {
+		return nil, nil, verifkit.Failf(key, "NewMRTMessage: %v", err)
+	}
+	var wire []byte
+	if f := c19MrtSafely("serialize", func() { wire, err = m.Serialize() }); f != nil {
+		f.Sig = key
+		return nil, nil, f
+	}
+	if err != nil {
+		return nil, nil, verifkit.Failf(key, "the record does not serialise: %v", err)
+	}
+	h, err := ParseHeader(wire)
+	if err != nil {
+		return nil, wire, verifkit.Failf(key, "the serialised header does not parse: %v (wire %x)", err, wire)
+	}
+	var p *MRTMessage
+	if f := c19MrtSafely("ParseBody", func() { p, err = ParseBody(wire[c19MrtHdrLen(h.Type):], h) }); f != nil {
+		f.Sig = key
+		return nil, wire, f
+	}
+	if err != nil {
+		return nil, wire, verifkit.Failf(key, "the serialised record does not parse back: %v (wire %x)", err, wire)
+	}
+	return p, wire, nil
+}
+
+var c19MrtProbes = map[string]func() *verifkit.Failure{
+	// Rib.Serialize wrote AFI/SAFI for exactly the wrong families.
+	"mrt-rib-afi-safi-inverted": func() *verifkit.Failure {
+		const key = "mrt-rib-afi-safi-inverted"
+		prefix, _ := bgp.NewIPAddrPrefix(netip.MustParsePrefix("2001:db8::/32"))
+		e := NewRibEntry(1, 100, 0, c19MrtProbeAttrs(), false)
+		p, wire, f := c19MrtProbeReparse(key, TABLE_DUMPv2, RIB_IPV6_UNICAST, NewRib(1, bgp.RF_IPv6_UC, prefix, []*RibEntry{e}))
+		if f != nil {
+			return f
+		}
+		if got := p.Body.(*Rib).Prefix.String(); got != "2001:db8::/32" {
+			return verifkit.Failf(key, "RIB_IPV6_UNICAST record for 2001:db8::/32 parses back with prefix %s (wire %x)", got, wire)
+		}
+		rd := bgp.NewRouteDistinguisherTwoOctetAS(65000, 1)
+		vpn, _ := bgp.NewLabeledVPNIPAddrPrefix(netip.MustParsePrefix("10.1.0.0/16"), *bgp.NewMPLSLabelStack(100), rd)
+		p, wire, f = c19MrtProbeReparse(key, TABLE_DUMPv2, RIB_GENERIC, NewRib(2, bgp.RF_IPv4_VPN, vpn, []*RibEntry{e}))
+		if f != nil {
+			return f
+		}
+		if got := p.Body.(*Rib).Prefix.String(); got != vpn.String() {
+			return verifkit.Failf(key, "RIB_GENERIC record for VPNv4 %s parses back with prefix %s (wire %x)", vpn, got, wire)
+		}
+		return nil
+	},
+	// parseRib dropped the AFI/SAFI it read from a RIB_GENERIC body.
+	"mrt-rib-generic-family-lost": func() *verifkit.Failure {
+		const key = "mrt-rib-generic-family-lost"
+		rd := bgp.NewRouteDistinguisherTwoOctetAS(65000, 1)
+		vpn, _ := bgp.NewLabeledVPNIPAddrPrefix(netip.MustParsePrefix("10.1.0.0/16"), *bgp.NewMPLSLabelStack(100), rd)
+		pb, _ := vpn.Serialize()
+		body := []byte{0, 0, 0, 7, 0, 1, 128} // sequence 7, AFI 1, SAFI 128
+		body = append(body, pb...)
+		body = append(body, 0, 0) // no entries
+		h := &MRTHeader{Type: TABLE_DUMPv2, SubType: uint16(RIB_GENERIC), Len: uint32(len(body))}
+		m, err := ParseBody(body, h)
+		if err != nil {
+			return verifkit.Failf(key, "hand-encoded RIB_GENERIC VPNv4 record %x does not parse: %v", body, err)
+		}
+		if fam := m.Body.(*Rib).Family; fam != bgp.RF_IPv4_VPN {
+			return verifkit.Failf(key, "RIB_GENERIC record with AFI 1 SAFI 128 parses to a Rib with Family %d (%s)", uint32(fam), fam)
+		}
+		return nil
+	},
+	// MP_REACH_NLRI in MRT form without next hop (one octet) was rejected by the decoder.
+	"mrt-mpreach-without-nexthop": func() *verifkit.Failure {
+		const key = "mrt-mpreach-without-nexthop"
+		dst, _ := bgp.NewIPAddrPrefix(netip.MustParsePrefix("192.0.2.0/24"))
+		fs, err := bgp.NewFlowSpecUnicast(bgp.RF_FS_IPv4_UC, []bgp.FlowSpecComponentInterface{bgp.NewFlowSpecDestinationPrefix(dst)})
+		if err != nil {
+			return verifkit.Failf(key, "flowspec NLRI: %v", err)
+		}
+		mp, err := bgp.NewPathAttributeMpReachNLRI(bgp.RF_FS_IPv4_UC, []bgp.PathNLRI{{NLRI: fs}})
+		if err != nil {
+			return verifkit.Failf(key, "MP_REACH_NLRI: %v", err)
+		}
+		e := NewRibEntry(1, 100, 0, append(c19MrtProbeAttrs(), mp), false)
+		p, wire, f := c19MrtProbeReparse(key, TABLE_DUMPv2, RIB_GENERIC, NewRib(1, bgp.RF_FS_IPv4_UC, fs, []*RibEntry{e}))
+		if f != nil {
+			return f
+		}
+		if r := p.Body.(*Rib); len(r.Entries) != 1 || len(r.Entries[0].PathAttributes) != 3 {
+			return verifkit.Failf(key, "the FlowSpec RIB entry parses back differently (wire %x)", wire)
+		}
+		return nil
+	},
+	// (open) extended-timestamp records are constructible but not parseable.
+	"mrt-et-not-parsed": func() *verifkit.Failure {
+		const key = "mrt-et-not-parsed"
+		ip1, ip2 := netip.MustParseAddr("10.0.0.1"), netip.MustParseAddr("10.0.0.2")
+		bm, _ := NewBGP4MPMessage(65001, 65002, 0, ip1, ip2, true, bgp.NewBGPKeepAliveMessage())
+		_, wire, f := c19MrtProbeReparse(key, BGP4MP_ET, MESSAGE_AS4, bm)
+		if f != nil {
+			return f
+		}
+		stream := append(append([]byte{}, wire...), wire...)
+		adv, tok, err := SplitMrt(stream, false)
+		if err != nil || adv != len(wire) || len(tok) != len(wire) {
+			return verifkit.Failf(key, "SplitMrt on a stream of two BGP4MP_ET records of %d octets returns advance %d, token of %d octets, err %v", len(wire), adv, len(tok), err)
+		}
+		return nil
+	},
+	// BGP4MP *_ADDPATH sub-types were encoded / decoded without path identifiers.
+	"mrt-bgp4mp-addpath-ignored": func() *verifkit.Failure {
+		const key = "mrt-bgp4mp-addpath-ignored"
+		ip1, ip2 := netip.MustParseAddr("10.0.0.1"), netip.MustParseAddr("10.0.0.2")
+		nlri, _ := bgp.NewIPAddrPrefix(netip.MustParsePrefix("10.0.0.0/24"))
+		nh, _ := bgp.NewPathAttributeNextHop(ip1)
+		upd := bgp.NewBGPUpdateMessage(nil, append(c19MrtProbeAttrs(), nh), []bgp.PathNLRI{{NLRI: nlri, ID: 5}})
+		bm, _ := NewBGP4MPMessageAddPath(65001, 65002, 0, ip1, ip2, true, upd)
+		p, wire, f := c19MrtProbeReparse(key, BGP4MP, MESSAGE_AS4_ADDPATH, bm)
+		if f != nil {
+			return f
+		}
+		pu, ok := p.Body.(*BGP4MPMessage).BGPMessage.Body.(*bgp.BGPUpdate)
+		if !ok || len(pu.NLRI) != 1 || pu.NLRI[0].ID != 5 || pu.NLRI[0].NLRI.String() != "10.0.0.0/24" {
+			return verifkit.Failf(key, "MESSAGE_AS4_ADDPATH with NLRI 10.0.0.0/24 path id 5 parses back as %s (wire %x)", c19MrtJSON(p.Body.(*BGP4MPMessage).BGPMessage.Body), wire)
+		}
+		// the form the daemon writes: the received (ADD-PATH encoded) octets
+		opt := &bgp.MarshallingOption{AddPath: map[bgp.Family]bgp.BGPAddPathMode{bgp.RF_IPv4_UC: bgp.BGP_ADD_PATH_BOTH}}
+		payload, err := upd.Serialize(opt)
+		if err != nil {
+			return verifkit.Failf(key, "UPDATE does not serialise: %v", err)
+		}
+		bm2, _ := NewBGP4MPMessageAddPath(65001, 65002, 0, ip1, ip2, true, nil)
+		bm2.BGPMessagePayload = payload
+		p, wire, f = c19MrtProbeReparse(key, BGP4MP, MESSAGE_AS4_ADDPATH, bm2)
+		if f != nil {
+			return f
+		}
+		pu, ok = p.Body.(*BGP4MPMessage).BGPMessage.Body.(*bgp.BGPUpdate)
+		if !ok || len(pu.NLRI) != 1 || pu.NLRI[0].ID != 5 || pu.NLRI[0].NLRI.String() != "10.0.0.0/24" {
+			return verifkit.Failf(key, "MESSAGE_AS4_ADDPATH carrying the ADD-PATH encoded payload of NLRI 10.0.0.0/24 path id 5 parses as %s (wire %x)", c19MrtJSON(p.Body.(*BGP4MPMessage).BGPMessage.Body), wire)
+		}
+		return nil
+	},
+	// BGP4MPHeader.serialize truncated a 4-octet AS number to 16 bits in the 2-octet sub-types.
+	"mrt-bgp4mp-as2-truncated": func() *verifkit.Failure {
+		const key = "mrt-bgp4mp-as2-truncated"
+		ip1, ip2 := netip.MustParseAddr("10.0.0.1"), netip.MustParseAddr("10.0.0.2")
+		sc, _ := NewBGP4MPStateChange(70000, 65000, 0, ip1, ip2, false, 1, 2)
+		m, _ := NewMRTMessage(time.Unix(1700000000, 0), BGP4MP, STATE_CHANGE, sc)
+		wire, err := m.Serialize()
+		if err != nil {
+			return nil // refusing the number is acceptable as well
+		}
+		h, _ := ParseHeader(wire)
+		p, err := ParseBody(wire[MRT_COMMON_HEADER_LEN:], h)
+		if err != nil {
+			return verifkit.Failf(key, "STATE_CHANGE does not parse back: %v", err)
+		}
+		if got := p.Body.(*BGP4MPStateChange).PeerAS; got != bgp.AS_TRANS {
+			return verifkit.Failf(key, "STATE_CHANGE (2-octet AS) built for peer AS 70000 parses back with peer AS %d (neither refused nor AS_TRANS)", got)
+		}
+		return nil
+	},
+	// ParseBody satisfied counts inside the body from the octets behind the record.
+	"mrt-body-reads-past-header-len": func() *verifkit.Failure {
+		const key = "mrt-body-reads-past-header-len"
+		body := []byte{0x0a, 0, 0, 1, 0, 0, 0, 1} // collector 10.0.0.1, no view name, ONE peer announced, none present
+		next := []byte{0, 10, 0, 0, 2, 10, 0, 0, 3, 0xfd, 0xe8}
+		h := &MRTHeader{Type: TABLE_DUMPv2, SubType: uint16(PEER_INDEX_TABLE), Len: uint32(len(body))}
+		m, err := ParseBody(append(append([]byte{}, body...), next...), h)
+		if err == nil {
+			return verifkit.Failf(key, "PEER_INDEX_TABLE body %x (header Length 8, one peer announced, none present) followed by %x parses successfully: %s", body, next, c19MrtJSON(m.Body))
+		}
+		return nil
+	},
+	// SplitMrt looked at cap(data) instead of len(data).
+	"mrt-split-cap-not-len": func() *verifkit.Failure {
+		const key = "mrt-split-cap-not-len"
+		buf := make([]byte, 64)
+		binary.BigEndian.PutUint16(buf[4:6], uint16(BGP4MP_ET)) // stale contents: an _ET header, which ParseHeader refuses when given 12 octets
+		adv, tok, err := SplitMrt(buf[:4], false)
+		if adv != 0 || tok != nil || err != nil {
+			return verifkit.Failf(key, "SplitMrt on 4 octets inside a 64-octet buffer returns (%d, %d octets, %v) instead of asking for more data", adv, len(tok), err)
+		}
+		return nil
+	},
+	// SplitMrt computed 12+Length in uint32.
+	"mrt-split-length-overflow": func() *verifkit.Failure {
+		const key = "mrt-split-length-overflow"
+		in := []byte{0, 0, 0, 0, 0, 13, 0, 2, 0xff, 0xff, 0xff, 0xf4}
+		adv, tok, err := SplitMrt(in, false)
+		if err == nil && tok != nil {
+			return verifkit.Failf(key, "SplitMrt(%x) returns advance %d and a token of %d octets", in, adv, len(tok))
+		}
+		in[11] = 0xf8
+		adv, tok, err = SplitMrt(in, false)
+		if err == nil && tok != nil {
+			return verifkit.Failf(key, "SplitMrt(%x) returns advance %d and a token of %d octets", in, adv, len(tok))
+		}
+		return nil
+	},
+	// NewRib indexed entries[0] of an empty entry list.
+	"mrt-newrib-empty-entries-panics": func() *verifkit.Failure {
+		const key = "mrt-newrib-empty-entries-panics"
+		prefix, _ := bgp.NewIPAddrPrefix(netip.MustParsePrefix("10.0.0.0/8"))
+		var rib *Rib
+		if f := c19MrtSafely("NewRib", func() { rib = NewRib(1, bgp.RF_IPv4_UC, prefix, nil) }); f != nil {
+			f.Sig = key
+			return f
+		}
+		p, wire, f := c19MrtProbeReparse(key, TABLE_DUMPv2, RIB_IPV4_UNICAST, rib)
+		if f != nil {
+			return f
+		}
+		if r := p.Body.(*Rib); len(r.Entries) != 0 || r.Prefix.String() != "10.0.0.0/8" {
+			return verifkit.Failf(key, "a RIB record without entries parses back differently (wire %x)", wire)
+		}
+		return nil
+	},
 }
 
 func c19MrtWire(s *verifgen.Src) []byte {
@@ -1158,6 +1315,9 @@ func runC19Mrt(c c19MrtCase, st *verifkit.Stats) *verifkit.Failure {
 }
 
 func TestVerifC19_mrt(t *testing.T) {
+	for key, p := range c19MrtProbes {
+		verifkit.RegisterProbe("C19_mrt", key, func(*verifkit.Stats) *verifkit.Failure { return p() })
+	}
 	verifkit.Run(t, "C19_mrt", drawC19Mrt, runC19Mrt)
 }
 
